@@ -1,6 +1,8 @@
 """C15 — kernprof never takes the program's arguments for its own.
 Proof: Props/C15.lean (module_mode, script_plain, script_shielded, options_only_from_prefix, for every option table and
-every argument list) + bridge (code emitted from kernprof.pre_parse_single_arg_directive = model);
+every argument list) + bridge (code emitted from kernprof.pre_parse_single_arg_directive = model) + the statement
+sequence of main/_main that writes args / module / post_args / options.* / sys.argv, emitted from the tree
+(emitted_flow_is_reference, reference_flow_eq_model, kernprof_flow: running those statements = parseCmd, for every argument list);
 tie: K15 — real kernprof.main in-process on token lists vs the model's parseCmd with the *generated* option table;
 oracle: the program's sys.argv[1:] must be the tokens after the script / module, verbatim."""
 import itertools
